@@ -727,13 +727,14 @@ def exec_xrfm(p, drv):
         # correspondence: driver's gradient of the stored leaf function (float64 evaluation of float32 parameters)
         m = drv.ask(driver_query(kd, T64, c64, Z64, C64))
         if 'error' in m:
+            # model unavailable: recorded, the finite-difference oracle below still runs
             res['disagreements'].append({'detail': f'model rejects the case: {m["error"]}'})
-            continue
-        gm = torch.tensor(core.unfl(m['grads']), dtype=torch.float64).reshape(1, len(js), d)
-        ratio, detail, _ = compare_blocks(make_kernel(kd), kd, T, centers, Z, W.T.contiguous(), gi, gm, S, EPS32, 5e-3)
-        worst_corr = max(worst_corr, ratio)
-        if detail:
-            res['disagreements'].append({'detail': f'xRFM.get_grads (leaf of {len(centers)} centers): ' + detail})
+        else:
+            gm = torch.tensor(core.unfl(m['grads']), dtype=torch.float64).reshape(1, len(js), d)
+            ratio, detail, _ = compare_blocks(make_kernel(kd), kd, T, centers, Z, W.T.contiguous(), gi, gm, S, EPS32, 5e-3)
+            worst_corr = max(worst_corr, ratio)
+            if detail:
+                res['disagreements'].append({'detail': f'xRFM.get_grads (leaf of {len(centers)} centers): ' + detail})
         # oracle: central differences of the real xRFM.predict, stencil at least 5 steps from every kink / center / split
         clear = kink_clear(k['kind'], kd, c64, Z64, T64, h / 40).all(dim=0)
         for r_, (j, am) in enumerate(rows):
